@@ -13,10 +13,14 @@ import (
 	"encoding/json"
 	"errors"
 	"fmt"
+	"log"
 	"math/rand"
 	"os"
+	"runtime"
 	"strconv"
+	"sync"
 	"testing"
+	"time"
 
 	"google.golang.org/genproto/googleapis/datastore/v1"
 	"google.golang.org/grpc/encoding"
@@ -35,6 +39,15 @@ type vcEvent struct {
 	StdOk bool   `json:"stdok"` // proto.Unmarshal(out) (a conforming parser) equals the original likewise
 	ErrOk bool   `json:"errok"` // an error of the underlying codec is passed through unchanged
 	Panic bool   `json:"panic"`
+}
+
+// vcYieldWriter is a log sink that lets other goroutines run while a line is being written
+type vcYieldWriter struct{}
+
+func (vcYieldWriter) Write(p []byte) (int, error) {
+	runtime.Gosched()
+	time.Sleep(20 * time.Microsecond)
+	return len(p), nil
 }
 
 func vcInts(b []byte) []int {
@@ -222,6 +235,64 @@ func TestVerifChecksum(t *testing.T) {
 		evc := ev
 		retained = append(retained, kept{ev: &evc, out: obKeep})
 	}
+	// concurrent round: the codec value is shared by every call of a ClientConn, so several goroutines marshal different
+	// messages with the same codec at once (log output goes through a writer that yields, like a slow log sink); every
+	// output is judged against its own message exactly like the sequential ones
+	prevOut := log.Writer()
+	log.SetOutput(vcYieldWriter{})
+	var cmu sync.Mutex
+	var wg sync.WaitGroup
+	workers, per := 6, n/6+1
+	for w := 0; w < workers; w++ {
+		wg.Add(1)
+		go func(w int) {
+			defer wg.Done()
+			rw := rand.New(rand.NewSource(seed*977 + int64(w)))
+			for j := 0; j < per; j++ {
+				msg, kind := vcMessage(rw, w*per+j)
+				ev := vcEvent{Kind: "conc-" + kind, Std: []int{}, Out: []int{}, ErrOk: true}
+				var ob []byte
+				func() {
+					defer func() {
+						if p := recover(); p != nil {
+							ev.Panic = true
+						}
+					}()
+					std2, _ := inner.Marshal(msg)
+					var err error
+					ob, err = codec.Marshal(msg)
+					if err != nil {
+						ob = nil
+						return
+					}
+					if len(ob) >= 6 && string(ob[6:]) != string(std2) && len(ob)-6 == len(std2) {
+						d := msg.ProtoReflect().New().Interface()
+						if proto.Unmarshal(ob[6:], d) == nil && proto.Equal(d, msg) {
+							std2 = append([]byte{}, ob[6:]...)
+						}
+					}
+					ev.Std = vcInts(std2)
+					d1 := msg.ProtoReflect().New().Interface()
+					if e := codec.Unmarshal(ob, d1); e == nil {
+						vcStripChecksum(d1)
+						ev.DecOk = proto.Equal(d1, msg) && string(d1.ProtoReflect().GetUnknown()) == string(msg.ProtoReflect().GetUnknown())
+					}
+					d2 := msg.ProtoReflect().New().Interface()
+					if e := proto.Unmarshal(ob, d2); e == nil {
+						vcStripChecksum(d2)
+						ev.StdOk = proto.Equal(d2, msg) && string(d2.ProtoReflect().GetUnknown()) == string(msg.ProtoReflect().GetUnknown())
+					}
+				}()
+				evc := ev
+				cmu.Lock()
+				evc.Id = len(retained)
+				retained = append(retained, kept{ev: &evc, out: ob})
+				cmu.Unlock()
+			}
+		}(w)
+	}
+	wg.Wait()
+	log.SetOutput(prevOut)
 	// outputs are written out only now: one that aliases a reused buffer has been overwritten meanwhile
 	for _, k := range retained {
 		if k.out != nil {
